@@ -114,6 +114,21 @@ theorem bodyR_mono (ce : CE) (ss : List Stmt) (hb : BodyR ss) :
     obtain ⟨rfl, _⟩ := stmtF_compF ce st hst cs cs1 d c1 h1
     exact ih cs1 cs' d c2 h2
 
+/-- such a body ends with a `return` statement -/
+theorem bodyR_last (ss : List Stmt) (hb : BodyR ss) : ∃ e, ss.getLast? = some (.ret (some e)) := by
+  induction hb with
+  | ret e _ => exact ⟨e, rfl⟩
+  | letS x mu ty e r _ hr ih =>
+    obtain ⟨e', he'⟩ := ih
+    cases r with
+    | nil => simp at he'
+    | cons y r' => exact ⟨e', by rw [List.getLast?_cons_cons]; exact he'⟩
+  | stmt st r _ hr ih =>
+    obtain ⟨e', he'⟩ := ih
+    cases r with
+    | nil => simp at he'
+    | cons y r' => exact ⟨e', by rw [List.getLast?_cons_cons]; exact he'⟩
+
 /-- the code of such a body ends with the `RET` opcode -/
 theorem bodyR_ends_ret (ce : CE) (ss : List Stmt) (hb : BodyR ss) :
     ∀ (cs cs' : CS) (d : Nat) (code : List PI) (bs : Bytes), cStmts ce cs d ss = .ok (cs', code) → encodeAll code = some bs →
@@ -339,10 +354,9 @@ theorem cFunction_bodyR (ce : CE) (strings : List Bytes) (body : List Stmt) (hb 
     | none => simp [he] at h
     | some bs =>
       simp only [he] at h
-      have hlast := bodyR_ends_ret ce body hb _ cs1 0 code bs hc he
+      obtain ⟨elast, hlast⟩ := bodyR_last body hb
       simp only [hlast] at h
-      have hnr : ((UInt8.ofNat Opc.RET.toByte).toNat != Opc.RET.toByte) = false := by decide
-      simp only [hnr, Bool.false_eq_true, if_false, List.append_nil, Except.ok.injEq, Prod.mk.injEq] at h
+      simp only [Bool.false_eq_true, if_false, List.append_nil, Except.ok.injEq, Prod.mk.injEq] at h
       obtain ⟨h1, h2, h3⟩ := h
       obtain ⟨hs, hl⟩ := bodyR_cs ce body hb _ cs1 0 code hc
       exact ⟨cs1, code, rfl, by rw [← h2]; exact he, h3.symm, by rw [← h1, hs], by rw [← h3]; exact hl (by simp)⟩
